@@ -276,7 +276,8 @@ def run_roundtrip(spec):
         s.set_transit_key(key)
         hints_of(s)
         s.add_connection_hints(json.loads(json.dumps(hints)))
-        want = {(h["hostname"], h["port"]) for h in hints if h["type"] == "direct-tcp-v1"}
+        lports = [x[1] for x in r.netlog if x[0] == "listen" and x[1] != 4000]
+        want = {(h, lports[0]) for h in world.local_addresses if h != "127.0.0.1"} if lports else set()
         n0 = len(r.dials)
         rs, rr = Result(s.connect()), Result(rc.connect())
         sch = Scheduler(world, None, strategy="random", chunking="whole")
